@@ -128,4 +128,36 @@ def TraceDiscipline : List TEv → Bool
   | .acquire true :: r => LockDiscipline (.tryLock :: r.map TEv.toStep)
   | _ => false
 
+/-! ### Whole writer lifetimes, by the way they end
+
+`whoosh/writing.py` `IndexWriter.__exit__` (`if exc_type: self.cancel() else: self.commit()`),
+`SegmentWriter.commit` / `cancel` / `_finish`, and `whoosh/multiproc.py` `MpWriter._commit` /
+`_subtasks_failed`: the multi-process writer notices a dead sub-writer process after joining the
+sub-tasks, *before* `_commit_toc`; `_subtasks_failed` then calls `self.cancel()` (which destroys the
+temp storage and releases the lock in `_finish`) and raises `IndexingError`.  So a commit that fails
+this way is, for the lock protocol, a cancel. -/
+
+/-- buffered API calls and the file writes that go with them -/
+def lifeBody (ops : List Op) (n : Nat) : List Step := ops.map Step.work ++ List.replicate n Step.io
+
+/-- `SegmentWriter.commit`: …, `_commit_toc`, clean-up (`m` storage operations), `_finish` -/
+def commitLife (ops : List Op) (n m : Nat) : List Step :=
+  .tryLock :: .readToc :: (lifeBody ops n ++ .writeToc :: (List.replicate m .io ++ [.release]))
+
+/-- `SegmentWriter.cancel` (also reached from `IndexWriter.__exit__` with an exception and from
+    `MpWriter._subtasks_failed`): clean-up of what was written (`m` operations), `_finish` -/
+def cancelLife (ops : List Op) (n m : Nat) : List Step :=
+  .tryLock :: .readToc :: (lifeBody ops n ++ (List.replicate m .io ++ [.release]))
+
+/-- a lifetime that simply stops (an exception leaves `commit()` and nobody cancels) -/
+def leakLife (ops : List Op) (n : Nat) : List Step := .tryLock :: .readToc :: lifeBody ops n
+
+/-- `with ix.writer(...) as w: body`.  `bodyRaises`: the block raised; `commitFails`: the commit run by
+    `__exit__` found a dead sub-writer (`MpWriter._commit`); `failCancels`: `_subtasks_failed` cancels
+    the writer before raising (true in the code). -/
+def withBlock (ops : List Op) (n m : Nat) (bodyRaises commitFails failCancels : Bool) : List Step :=
+  if bodyRaises then cancelLife ops n m
+  else if commitFails then (if failCancels then cancelLife ops n m else leakLife ops n)
+  else commitLife ops n m
+
 end WM.Lock
